@@ -31,19 +31,21 @@ func (s State) clone() State {
 
 // VC is the verification context of one function under contract.
 type VC struct {
-	baseMem string
-	nonNil  map[string]bool
-	mem     map[string]*memNode  // memory versions by name
-	allocP  map[string][]string  // alloc term -> parent alloc terms (it is >= each of them)
-	bornLt  map[string]string    // reference term -> alloc term it is known to be below
-	isAlloc map[string]bool      // reference terms that are allocation results (ref == alloc term before)
-	allocAfter map[string]string // allocation result -> alloc term right after it
-	distinct   map[[2]string]bool // pairs of reference terms assumed / known different
-	S       *Script
-	ls      *layouts
-	obls    []*Obligation
-	notes   []string // abstraction report (havocked calls etc.)
-	mapFams map[string]*mapFam
+	geqMemo    map[[2]string]bool
+	stable     []string // references of ghost objects that no havoc touches (mode A: the parsed request)
+	baseMem    string
+	nonNil     map[string]bool
+	mem        map[string]*memNode // memory versions by name
+	allocP     map[string][]string // alloc term -> parent alloc terms (it is >= each of them)
+	bornLt     map[string]string   // reference term -> alloc term it is known to be below
+	isAlloc    map[string]bool     // reference terms that are allocation results (ref == alloc term before)
+	allocAfter map[string]string   // allocation result -> alloc term right after it
+	distinct   map[[2]string]bool  // pairs of reference terms assumed / known different
+	S          *Script
+	ls         *layouts
+	obls       []*Obligation
+	notes      []string // abstraction report (havocked calls etc.)
+	mapFams    map[string]*mapFam
 }
 
 type Obligation struct {
@@ -176,6 +178,18 @@ func (vc *VC) allocGeq(b, a string, depth int) bool {
 	if a == b {
 		return true
 	}
+	if vc.geqMemo == nil {
+		vc.geqMemo = map[[2]string]bool{}
+	}
+	if v, ok := vc.geqMemo[[2]string{b, a}]; ok {
+		return v
+	}
+	res := vc.allocGeq1(b, a, depth)
+	vc.geqMemo[[2]string{b, a}] = res
+	return res
+}
+
+func (vc *VC) allocGeq1(b, a string, depth int) bool {
 	if depth > 400 {
 		return false
 	}
@@ -246,6 +260,20 @@ func (vc *VC) read(mem, ref, off string) string {
 	for steps := 0; steps < 2000; steps++ {
 		n := vc.mem[cur]
 		if n == nil || n.kind == 0 {
+			break
+		}
+		if n.kind == 7 {
+			// full havoc that spares the stable ghost objects
+			isStable := false
+			for _, s := range vc.stable {
+				if s == ref {
+					isStable = true
+				}
+			}
+			if isStable {
+				cur = n.parent
+				continue
+			}
 			break
 		}
 		if n.kind == 5 {
@@ -406,7 +434,11 @@ func (vc *VC) copyCells(st *State, dref, doff, sref, soff, n string) {
 func (vc *VC) havocFrame(st *State, before string) string {
 	h := vc.declMem("Mh")
 	parent := st.Mem
-	st.Mem = vc.defMem(ite(sx("<", "r", before), sel(st.Mem, "r", "o"), sel(h, "r", "o")))
+	keep := sx("<", "r", before)
+	for _, s := range vc.stable {
+		keep = or(keep, eq("r", s))
+	}
+	st.Mem = vc.defMem(ite(keep, sel(st.Mem, "r", "o"), sel(h, "r", "o")))
 	vc.mem[st.Mem] = &memNode{kind: 5, before: before, parent: parent}
 	return h
 }
@@ -414,11 +446,19 @@ func (vc *VC) havocFrame(st *State, before string) string {
 // havocMem replaces memory by an unconstrained one except where keep(r,o) holds.
 func (vc *VC) havocMem(st *State, keep string) string {
 	h := vc.declMem("Mh")
+	full := keep == "" || keep == "false"
+	for _, s := range vc.stable {
+		keep = or(keep, eq("r", s))
+	}
 	if keep == "" || keep == "false" {
 		st.Mem = h
 		return h
 	}
+	parent := st.Mem
 	st.Mem = vc.defMem(ite(keep, sel(st.Mem, "r", "o"), sel(h, "r", "o")))
+	if full {
+		vc.mem[st.Mem] = &memNode{kind: 7, parent: parent}
+	}
 	return h
 }
 
